@@ -2,7 +2,7 @@
    Convert records the foreign error (lemmas behind Props/C06.v). *)
 From Coq Require Import NArith List Bool Lia PeanoNat.
 From GT Require Import Base.GErrStr.
-From GT Require Import GErrModel GErrSpec GErrHist GErrIsProofs.
+From GT Require Import GErrModel GErrSpec GErrProofs GErrHist GErrIsProofs.
 Import ListNotations.
 
 Lemma pool_wf st : Forall root_cell st -> wf st.
@@ -108,7 +108,8 @@ Lemma derive_origin xw : guarded_wiring xw -> forall ch st v st' r i,
   Forall (fun s => admissible st (a_err (snd s))) ch ->
   forallb no_shortcut ch = true ->
   derive xw st v ch = Some (st', r) ->
-  wf st' /\ exists k, gv st' r = Some k /\ origin st' k = origin st i /\ length st <= length st'.
+  wf st' /\ exists k, gv st' r = Some k /\ origin st' k = origin st i /\ length st <= length st'
+                       /\ (ch = [] \/ length st <= k).
 Proof.
   intros GW. induction ch as [|[m a] ch IH]; intros st v st' r i W G Adm NS D.
   - simpl in D. injection D as <- <-. split; [exact W|]. exists i. auto.
@@ -126,9 +127,11 @@ Proof.
       - left; exact H.
       - right; left. exists k. apply gv_extend. exact H.
       - right; right. exact H. }
-    destruct (IH st1 v1 st' r (length st) W1 G1 Adm1 NS2 D) as [W' [k [Gk [Ok Len]]]].
-    split; [exact W'|]. exists k. repeat split; [exact Gk|congruence|].
-    subst st1. rewrite app_length in Len. simpl in Len. lia.
+    destruct (IH st1 v1 st' r (length st) W1 G1 Adm1 NS2 D) as [W' [k [Gk [Ok [Len Fresh]]]]].
+    split; [exact W'|]. exists k. split; [exact Gk|]. split; [congruence|].
+    subst st1. rewrite app_length in Len, Fresh. simpl in Len, Fresh. split; [lia|]. right.
+    destruct Fresh as [->|Fresh]; [|lia].
+    simpl in D. injection D as <- <-. rewrite G1 in Gk. injection Gk as <-. lia.
 Qed.
 
 (* ---------------------------------------------------------------- errors.Is never panics *)
@@ -327,4 +330,52 @@ Proof.
   destruct (call_wf base_wiring _ _ _ _ _ _ base_wiring_guarded panic_store_wf A1 C) as [W1 [[k G1] _]].
   exists st', r, slice_err. split; [exact W1|]. split; [right; left; eauto|]. split; [|exact D].
   right; right. exists 4%N, false, 5%N, VNil. split; reflexivity.
+Qed.
+
+(* ---------------------------------------------------------------- the property's headline *)
+Lemma val_of_extend st ext i : i < length st -> val_of (st ++ ext) i = val_of st i.
+Proof. intros H. unfold val_of. rewrite nth_error_app1 by exact H. reflexivity. Qed.
+
+Lemma root_origin st i c : nth_error st i = Some c -> root_cell c -> origin st i = i.
+Proof. intros E [F _]. exact (origin_root st i c E F). Qed.
+
+(* any error derived from a pool factory F through any chain: errors.Is(err, F) holds, it is
+   false for every other pool factory G, and (for a non-empty chain) ExtractFactoryReference
+   returns F's record *)
+Lemma headline xw st F ch st' e :
+  guarded_wiring xw -> Forall root_cell st -> F < length st ->
+  Forall (fun s => admissible st (a_err (snd s))) ch -> forallb no_shortcut ch = true ->
+  derive xw st (val_of st F) ch = Some (st', e) ->
+  errors_is st' e (val_of st' F) = Ok true
+  /\ (forall G, G < length st -> G <> F -> errors_is st' e (val_of st' G) = Ok false)
+  /\ (ch <> [] -> extract_fref st' e = VG F).
+Proof.
+  intros GW Pool HF Adm NS D.
+  pose proof (pool_wf st Pool) as W.
+  destruct (nth_error st F) as [cF|] eqn:EF; [|apply nth_error_None in EF; lia].
+  pose proof (gv_val_of st F cF EF) as GF.
+  destruct (derive_origin xw GW ch st (val_of st F) st' e F W GF Adm NS D)
+    as [W' [k [Gk [Ok [Len Fresh]]]]].
+  destruct (derive_extends _ _ _ _ _ _ D) as [ext ->].
+  assert (RF : root_cell cF) by (rewrite Forall_forall in Pool; apply Pool; eapply nth_error_In; eauto).
+  rewrite (root_origin st F cF EF RF) in Ok.
+  assert (EF' : nth_error (st ++ ext) F = Some cF) by (rewrite nth_error_app1 by exact HF; exact EF).
+  split; [|split].
+  - rewrite (val_of_extend st ext F HF).
+    destruct RF as [RF1 _].
+    exact (is_own (st ++ ext) e k (val_of st F) F cF W' Gk (gv_extend st ext _ _ GF) EF' RF1 Ok).
+  - intros G HG Hne.
+    destruct (nth_error st G) as [cG|] eqn:EG; [|apply nth_error_None in EG; lia].
+    assert (RG : root_cell cG) by (rewrite Forall_forall in Pool; apply Pool; eapply nth_error_In; eauto).
+    assert (EG' : nth_error (st ++ ext) G = Some cG) by (rewrite nth_error_app1 by exact HG; exact EG).
+    rewrite (val_of_extend st ext G HG). destruct RG as [RG1 _].
+    apply (is_not_other (st ++ ext) e k (val_of st G) G cG W' Gk
+             (gv_extend st ext _ _ (gv_val_of st G cG EG)) EG' RG1). congruence.
+  - intros Hne. destruct Fresh as [->|Fresh]; [contradiction|].
+    destruct (gv_cell _ _ _ Gk) as [ck [Ek _]].
+    rewrite (extract_gerr (st ++ ext) e k ck W' Gk Ek), Ok.
+    destruct (W' k ck Ek) as [Fk _ _ | o co Fk _ _ _ _ _ _].
+    + (* a root among the fresh cells would be its own origin *)
+      pose proof (origin_root (st ++ ext) k ck Ek Fk) as Or. rewrite Or in Ok. lia.
+    + rewrite Fk. reflexivity.
 Qed.
